@@ -462,14 +462,15 @@ class Source:
     def f_glyph_count(self, n, case):
         self.big = True
         self.timeout = 900
-        lay = {"width": 500}
-        names = [".notdef", "a", "b"] + ["g%05d" % i for i in range(3, n)]
-        have = {g["name"] for g in self.mf["glyphs"]}
-        for nm in names:
-            if nm not in have:
-                self.mf["glyphs"].append({"name": nm, "unicodes": [], "layers": {self.masters[0]: lay}})
-        self.mf["glyphs"][-1]["layers"] = {self.masters[0]: {"width": 501}}   # no trailing run in hmtx
-        self.mf["glyph_order"] = names
+        # n glyphs: the 258 standard Macintosh names first (a post format 2 table holds at most 65278 other
+        # names: its glyphNameIndex is a u16 starting at 258), then g00258, g00259 ...; neighbouring advances
+        # differ, so hmtx has no trailing run and numberOfHMetrics = n
+        std = std_names()
+        names = ["a", "b"] + [x for x in std if x not in ("a", "b")] + ["g%05d" % i for i in range(len(std), n)]
+        for i, nm in enumerate(names[2:], 2):
+            self.mf["glyphs"].append({"name": nm, "unicodes": [], "layers": {self.masters[0]: {"width": 500 + i % 2}}})
+        self.mf["glyph_order"] = [".notdef"] + [x for x in names if x != ".notdef"]
+        self.count = n
 
         def probe(rb):
             ll = rb.get("loca_len")
@@ -699,6 +700,18 @@ versionMinor = 0;
 """
 
 
+_STD = []
+
+
+def std_names():
+    if not _STD:
+        r = common.vh(["limits", "std-names"], timeout=60)
+        _STD.extend(json.loads(r.stdout))
+        if len(_STD) != 258:
+            raise common.ToolError("vh limits std-names: %s" % r.stderr[-300:])
+    return _STD
+
+
 def make_source(case, outdir):
     s = Source(case["src"])
     for it in case["items"]:
@@ -716,10 +729,12 @@ def make_source(case, outdir):
 # ----------------------------------------------------------------------------- running
 
 
-def observe(case, s, outdir):
+def observe(case, s, outdir, parallel=False):
     """Build with both profiles; returns {"dbg": obs, "rel": obs} (run_fontc observation + sha)."""
     res = {}
-    for prof, binary in (("dbg", common.FONTC), ("rel", RELSEM)):
+    os.makedirs(outdir, exist_ok=True)
+
+    def one(prof, binary):
         out = os.path.join(outdir, "%s.ttf" % prof)
         # two worker threads per compiler process: the box is shared and 8 compilers run at a time; no
         # backtraces: symbolising one takes the debug binary tens of seconds on a loaded machine
@@ -734,7 +749,60 @@ def observe(case, s, outdir):
         o["out"] = out
         o["panic"] = "panicked" in o.get("stderr", "")
         res[prof] = o
+
+    profiles = (("dbg", common.FONTC), ("rel", RELSEM))
+    if parallel:
+        with concurrent.futures.ThreadPoolExecutor(2) as ex:
+            list(ex.map(lambda pb: one(*pb), profiles))
+    else:
+        for pb in profiles:
+            one(*pb)
     return res
+
+
+def grow_ufo(ufo, n0, n1):
+    """Add the glyphs g<n0> .. g<n1-1> (empty, alternating advances) to the big UFO made for n0 glyphs."""
+    import plistlib
+    gdir = os.path.join(ufo, "glyphs")
+    cpath, lpath = os.path.join(gdir, "contents.plist"), os.path.join(ufo, "lib.plist")
+    contents = plistlib.load(open(cpath, "rb"))
+    lib = plistlib.load(open(lpath, "rb"))
+    for i in range(n0, n1):
+        name, fn = "g%05d" % i, "g%04d.glif" % i
+        with open(os.path.join(gdir, fn), "w") as f:
+            f.write(minifont.glif(name, [], {"width": 500 + i % 2}))
+        contents[name] = fn
+        lib["public.glyphOrder"].append(name)
+    plistlib.dump(contents, open(cpath, "wb"), sort_keys=True)
+    plistlib.dump(lib, open(lpath, "wb"), sort_keys=True)
+
+
+def run_big(ctx, cases, idxs):
+    """The 65535-glyph sources: one UFO, grown from the smallest count to the largest, built in both profiles
+    (concurrently) at each size; the 65536 files are written once and removed in the background."""
+    import threading
+    out = {}
+    d = ctx.path("big", "x")[:-2]
+    ufo, cur = None, None
+    for k in sorted(idxs, key=lambda k: max(it["v"] for it in cases[k]["items"])):
+        case = cases[k]
+        s = Source(case["src"])
+        for it in case["items"]:
+            s.add(it["field"], it["v"], case)
+        t = time.time()
+        if ufo is None:
+            ufo = minifont.materialize(s.mf, os.path.join(d, "src"))
+        else:
+            grow_ufo(ufo, cur, s.count)
+        cur = s.count
+        s.path = ufo
+        s.mf = None
+        obs = observe(case, s, os.path.join(d, "n%d" % cur), parallel=True)
+        out[k] = (s, obs, time.time() - t)
+        common.log("%d-glyph source built in both profiles in %.0fs" % (cur, time.time() - t))
+    cleaner = threading.Thread(target=shutil.rmtree, args=(os.path.join(d, "src"),), kwargs={"ignore_errors": True})
+    cleaner.start()
+    return out, cleaner
 
 
 def item_obs(s, o, rb):
@@ -850,8 +918,8 @@ def main(ctx):
     is_big = lambda c: any(it["field"] == "glyph_count" for it in c["items"])
     results = {}
     t0 = time.time()
-    bigpool = concurrent.futures.ThreadPoolExecutor(2)           # the 65535-glyph sources run alongside
-    bigfuts = [bigpool.submit(work, k) for k, c in enumerate(cases) if is_big(c)]
+    bigpool = concurrent.futures.ThreadPoolExecutor(1)           # the 65535-glyph sources run alongside
+    bigfut = bigpool.submit(run_big, ctx, cases, [k for k, c in enumerate(cases) if is_big(c)])
     small = [k for k, c in enumerate(cases) if not is_big(c)]
     with concurrent.futures.ThreadPoolExecutor(8) as ex:
         for k, s, obs, w in ex.map(work, small):
@@ -868,9 +936,8 @@ def main(ctx):
             len(small), time.time() - t0, per_case, n_opt, len(optional)))
         for k, s, obs, w in ex.map(work, range(first, len(cases))):
             results[k] = (s, obs, w)
-    for f in bigfuts:
-        k, s, obs, w = f.result()
-        results[k] = (s, obs, w)
+    bigres, cleaner = bigfut.result()
+    results.update(bigres)
     bigpool.shutdown()
     ev.exhaustive = (not ctx.replay) and not os.environ.get("C19_FIELDS") and n_opt == len(optional) and not ctx.quick
     ev.extra["optional_cases_run"] = n_opt
@@ -967,7 +1034,7 @@ def main(ctx):
                     summary["items"]["dbg"], summary["items"]["rel"]))
         replay = dict(summary)
         replay["all_cases"] = [case_key(cases[e[0]]) for e in lst][:60]
-        if not getattr(results[k][0], "big", False):
+        if results[k][0].mf is not None:
             replay["minifont"] = results[k][0].mf if results[k][0].glyphs_text is None else results[k][0].glyphs_text
         ctx.violation(sig, what, replay)
     ev.extra["item_outcomes"] = hist
@@ -982,5 +1049,4 @@ def main(ctx):
         "(trusted measurement); pictures are compared by a sampled Hausdorff distance of polygonal outlines",
         "Slack = 2 units (Limits.tla) is the reading of 'visibly different' in the property text",
     ]
-    if not ctx.quick:
-        shutil.rmtree(ctx.path("cases", "x")[:-2], ignore_errors=True)
+    cleaner.join()
